@@ -757,6 +757,11 @@ class World:
                 for fname, fty in self.all_fields(c['self_type']).items():
                     if not fty.startswith('const:'):
                         it.inputs[f'self.{fname}'] = it.read_field(params['self'].t, fname)
+            for pn, pv in params.items():
+                if pn != 'self' and isinstance(pv, SV) and pv.ty in self.classes and not self.classes[pv.ty].get('abstract'):
+                    for fname, fty in self.all_fields(pv.ty).items():
+                        if not fty.startswith('const:'):
+                            it.inputs[f'{pn}.{fname}'] = it.read_field(pv.t, fname)
             env = dict(params)
             env.update(closure)
             for gn, gty in (ghost_params or {}).items():
@@ -898,6 +903,7 @@ def solve_obligation(o, timeout_ms=10000, want_model=True):
     s = z3.Solver()
     s.set('timeout', timeout_ms)
     s.add(*o.pc)
+    s.add(*instantiation_hints(o.pc, o.goal))
     s.add(z3.Not(o.goal))
     r = s.check()
     o.time = time.time() - t0
@@ -920,6 +926,55 @@ def solve_obligation(o, timeout_ms=10000, want_model=True):
         o.note = s.reason_unknown()
         o.smt2 = s.to_smt2()
     return o
+
+
+def has_free_vars(e, depth=0, seen=None):
+    seen = {} if seen is None else seen
+    key = (e.get_id(), depth)
+    if key in seen:
+        return seen[key]
+    if z3.is_var(e):
+        r = z3.get_var_index(e) >= depth
+    elif z3.is_quantifier(e):
+        r = has_free_vars(e.body(), depth + e.num_vars(), seen)
+    else:
+        r = any(has_free_vars(c, depth, seen) for c in e.children())
+    seen[key] = r
+    return r
+
+
+def instantiation_hints(pc, goal, limit=40):
+    """instances of single-variable universal facts of the path condition at the Int / String
+    terms of the goal (sound: instances of assumed facts; helps trigger-less quantifiers)"""
+    cands = {}
+    stack = [goal]
+    seen = set()
+    while stack and len(seen) < 4000:
+        t = stack.pop()
+        if t.get_id() in seen:
+            continue
+        seen.add(t.get_id())
+        if z3.is_app(t):
+            if t.sort() in (IntS, StrS) and t.num_args() >= 1 and t.decl().kind() in (z3.Z3_OP_DT_ACCESSOR, z3.Z3_OP_UNINTERPRETED):
+                cands.setdefault(t.sort().name(), {})[t.get_id()] = t
+            elif t.sort() in (IntS, StrS) and z3.is_const(t) and t.decl().kind() == z3.Z3_OP_UNINTERPRETED:
+                cands.setdefault(t.sort().name(), {})[t.get_id()] = t
+            stack.extend(t.children())
+        elif z3.is_quantifier(t):
+            stack.append(t.body())
+    out = []
+    for p in pc:
+        qs = [p] if z3.is_quantifier(p) else ([c for c in p.children() if z3.is_quantifier(c)] if z3.is_and(p) else [])
+        for q in qs:
+            if q.is_forall() and q.num_vars() == 1 and q.var_sort(0).name() in cands:
+                for t in list(cands[q.var_sort(0).name()].values())[:6]:
+                    inst = z3.substitute_vars(q.body(), t)
+                    if has_free_vars(inst):
+                        continue
+                    out.append(inst)
+                    if len(out) >= limit:
+                        return out
+    return out
 
 
 def cvc5_retry(o, timeout_s=20):
